@@ -11,6 +11,7 @@ package main
 import (
 	"bufio"
 	"context"
+	"crypto/rsa"
 	"encoding/binary"
 	"encoding/json"
 	"errors"
@@ -18,15 +19,18 @@ import (
 	"io"
 	"net"
 	"os"
+	"path/filepath"
 	"strings"
 	"sync"
 	"time"
 
 	"github.com/gopcua/opcua/ua"
 	"github.com/gopcua/opcua/uacp"
+	"github.com/gopcua/opcua/uapolicy"
 	"github.com/gopcua/opcua/uasc"
 
 	"verifharness/internal/rng"
+	"verifharness/internal/scriptsrv"
 )
 
 type lim struct {
@@ -43,6 +47,7 @@ func (l lim) ack() *uacp.Acknowledge {
 type c06case struct {
 	ID     int    `json:"id"`
 	Class  string `json:"class"`
+	Mode   int    `json:"mode"` // 1 None (policy None), 2 Sign, 3 SignAndEncrypt (policy Basic256Sha256); 0 = 1
 	Client lim    `json:"client"`
 	Server lim    `json:"server"`
 	// size in bytes of the encoded service message (TypeID + service structure) to send in each direction
@@ -167,9 +172,50 @@ func connLim(c *uacp.Conn) *lim {
 // ---------------------------------------------------------------------------------------------------------
 // messages of a chosen encoded size
 
-func chanCfg() *uasc.Config {
-	return &uasc.Config{SecurityPolicyURI: ua.SecurityPolicyURINone, SecurityMode: ua.MessageSecurityModeNone,
+var (
+	keysOnce         sync.Once
+	cliCert, srvCert []byte
+	cliKey, srvKey   *rsa.PrivateKey
+	keysErr          error
+)
+
+func keys() error {
+	keysOnce.Do(func() {
+		dir := filepath.Join(filepath.Dir(os.Args[0]), "..", "keys")
+		cliCert, cliKey, keysErr = scriptsrv.KeyPair(dir, "c06-client", 2048)
+		if keysErr == nil {
+			srvCert, srvKey, keysErr = scriptsrv.KeyPair(dir, "c06-server", 2048)
+		}
+	})
+	return keysErr
+}
+
+// chanCfg: mode 1 = None/None; 2, 3 = Basic256Sha256 Sign / SignAndEncrypt.  The server side always starts from
+// None with certificate and key and takes policy and mode from the client's OpenSecureChannel request.
+func chanCfg(mode int, server bool) *uasc.Config {
+	cfg := &uasc.Config{SecurityPolicyURI: ua.SecurityPolicyURINone, SecurityMode: ua.MessageSecurityModeNone,
 		Lifetime: 3600000, RequestTimeout: 1500 * time.Millisecond}
+	if mode <= 1 {
+		return cfg
+	}
+	if server {
+		cfg.Certificate, cfg.LocalKey = srvCert, srvKey
+		return cfg
+	}
+	cfg.SecurityPolicyURI = ua.SecurityPolicyURIBasic256Sha256
+	cfg.SecurityMode = ua.MessageSecurityMode(mode)
+	cfg.Certificate, cfg.LocalKey = cliCert, cliKey
+	cfg.RemoteCertificate = srvCert
+	cfg.Thumbprint = uapolicy.Thumbprint(srvCert)
+	return cfg
+}
+
+// maxBody is the chunk body size for a send buffer of cs bytes (only used to aim message sizes at chunk boundaries)
+func maxBody(mode int, cs uint32) int {
+	if mode <= 1 {
+		return int(cs) - 25
+	}
+	return 16*((int(cs)-16)/16) - 8 - 32 - 1
 }
 
 func mkRequest(pad int, respMsg int) *ua.ReadRequest {
@@ -236,7 +282,7 @@ func runExchange(cs *c06case) {
 		cs.ServerPeer = peerLim(conn)
 		srvMu.Unlock()
 		errch := make(chan error, 8)
-		sc, err := uasc.NewServerSecureChannel("opc.tcp://"+l.Addr().String(), conn, chanCfg(), errch, 7, 1, 9)
+		sc, err := uasc.NewServerSecureChannel("opc.tcp://"+l.Addr().String(), conn, chanCfg(cs.Mode, true), errch, 7, 1, 9)
 		if err != nil {
 			srvMu.Lock()
 			cs.ServerRecv = "newchannel: " + err.Error()
@@ -288,7 +334,7 @@ func runExchange(cs *c06case) {
 		cs.ClientConn = connLim(conn)
 		cs.ClientPeer = peerLim(conn)
 		errch := make(chan error, 8)
-		sc, err := uasc.NewSecureChannel(url, conn, chanCfg(), errch)
+		sc, err := uasc.NewSecureChannel(url, conn, chanCfg(cs.Mode, false), errch)
 		if err != nil {
 			cs.DialErr = "newchannel: " + err.Error()
 			return
@@ -337,6 +383,15 @@ func runExchange(cs *c06case) {
 			cs.RespOnWire += int(f.size) - 24
 		}
 	}
+	if cs.Mode > 1 { // body bytes cannot be read off a secured chunk: report the size the sender set out to send
+		cs.ReqOnWire, cs.RespOnWire = 0, 0
+		if len(cs.C2S) > 0 {
+			cs.ReqOnWire = cs.ReqMsg
+		}
+		if len(cs.S2C) > 0 {
+			cs.RespOnWire = cs.RespMsg
+		}
+	}
 }
 
 func classifyC06(err error) string {
@@ -373,6 +428,9 @@ func classifyC06(err error) string {
 
 // calibrate measures the encoded size of the two messages with padding 1.
 func calibrate() error {
+	if err := keys(); err != nil {
+		return err
+	}
 	enc := func(typeID uint16, svc interface{}) (int, error) {
 		b1, err := ua.Encode(ua.NewFourByteExpandedNodeID(0, typeID))
 		if err != nil {
@@ -412,8 +470,36 @@ func pickBuf(r *rng.R) uint32 {
 	return uint32(r.Pick(8192, 8192, 8193, 9000, 16384, 32768, 65535, 65535, 65536, 100000, 1<<20, r.Range(8192, 70000)))
 }
 
+// genGrid: multi-chunk messages with body k*max + r, k in 1..6, r in -2..k+1, in one direction (the other direction
+// carries a small message), all three modes, symmetric and asymmetric buffers: the largest chunk on the wire must not
+// exceed the receive buffer the receiving side announced.
+func genGrid(r *rng.R, id int) *c06case {
+	cs := &c06case{ID: id, Class: "chunk-grid", Mode: 1 + (id/3)%3}
+	cs.Client = lim{uint32(r.Pick(8192, 8193, 9000, 16384, 65535)), uint32(r.Pick(8192, 8200, 9000, 16384, 65535)), 0, 0}
+	cs.Server = lim{uint32(r.Pick(8192, 8193, 9000, 16384, 65535)), uint32(r.Pick(8192, 8200, 9000, 16384, 65535)), 2097152, 512}
+	k := r.Range(1, 6)
+	rr := r.Range(-2, k+1)
+	cs.Class = fmt.Sprintf("chunk-grid-mode%d", cs.Mode)
+	cs.ReqMsg, cs.RespMsg = reqBase+r.Range(0, 500), respBase+r.Range(0, 500)
+	if r.Bool() {
+		mb := maxBody(cs.Mode, min(cs.Client.Send, cs.Server.Recv))
+		cs.ReqMsg = k*mb + rr
+	} else {
+		mb := maxBody(cs.Mode, min(cs.Server.Send, cs.Client.Recv))
+		cs.RespMsg = k*mb + rr
+	}
+	return cs
+}
+
 func genC06(r *rng.R, id int) *c06case {
-	cs := &c06case{ID: id}
+	if id%2 == 1 {
+		return genGrid(r, id)
+	}
+	id /= 2
+	cs := &c06case{ID: id * 2, Mode: 1}
+	if id%5 == 4 {
+		cs.Mode = 2 + id%2
+	}
 	def := lim{65535, 65535, 0, 0}
 	sdef := lim{65535, 65535, 2097152, 512}
 	cs.Client, cs.Server = def, sdef
@@ -463,7 +549,7 @@ func genC06(r *rng.R, id int) *c06case {
 	around := func(dirSend, dirRecv uint32, maxmsg, maxchunks uint32, base int) int {
 		cands := []int{base + 10, base + 1000}
 		for _, b := range []uint32{dirSend, dirRecv} {
-			body := int(b) - 25
+			body := maxBody(cs.Mode, b)
 			cands = append(cands, body-1, body, body+1, 2*body, 2*body+1, 3*body-1)
 			if maxchunks > 0 && maxchunks < 10 {
 				cands = append(cands, int(maxchunks)*body-1, int(maxchunks)*body, int(maxchunks)*body+1, (int(maxchunks)+1)*body+1)
@@ -515,7 +601,7 @@ func c06(seed uint64, n int, casesFile string) {
 				fmt.Fprintln(os.Stderr, "bad case:", err)
 				os.Exit(2)
 			}
-			cases = append(cases, &c06case{ID: in.ID, Class: in.Class, Client: in.Client, Server: in.Server, ReqMsg: in.ReqMsg, RespMsg: in.RespMsg})
+			cases = append(cases, &c06case{ID: in.ID, Class: in.Class, Mode: in.Mode, Client: in.Client, Server: in.Server, ReqMsg: in.ReqMsg, RespMsg: in.RespMsg})
 		}
 	} else {
 		r := rng.New(seed)
@@ -524,6 +610,9 @@ func c06(seed uint64, n int, casesFile string) {
 		}
 	}
 	for _, cs := range cases {
+		if cs.Mode == 0 {
+			cs.Mode = 1
+		}
 		if cs.ReqMsg < reqBase {
 			cs.ReqMsg = reqBase
 		}
